@@ -222,11 +222,13 @@ func TestVerif_C20_Wire(t *testing.T) {
 		for _, b := range nonces {
 			s := runHonest(a, b, "p")
 			if s == nil {
+				rep.Eval("honest", map[string]interface{}{"n1": a, "n2": b, "outcome": "failed"})
 				return
 			}
 			c := c20Parse(t, 2, s.sent[2].Message).chal
 			if prev, dup := seenChal[c]; dup {
 				rep.Diverge("challenge-collision", fmt.Sprintf("nonce pairs %v and %v give the same challenge: it is not derived from both nonces", prev, [2]int{a, b}), nil, nil, nil)
+				rep.Eval("honest", map[string]interface{}{"n1": a, "n2": b, "outcome": "challenge collision"})
 				return
 			}
 			seenChal[c] = [2]int{a, b}
@@ -294,6 +296,7 @@ func TestVerif_C20_Wire(t *testing.T) {
 			if tg.replay {
 				oldS = runHonest(old.Get("n1").Int(), old.Get("n2").Int(), old.Get("p").Str())
 				if oldS == nil {
+					rep.Eval("honest", nil)
 					return
 				}
 			}
